@@ -329,7 +329,13 @@ func (o rop) String() string {
 }
 
 func c09Run(r *rand.Rand, start map[string]any, ops []rop, gen func(cur any) rop, n int) Case {
+	// the document under the patch is hand-built or decoded (decoders reuse one shared leaf object for every null)
 	d := anyToContainer(start)
+	if len(fmt.Sprint(start))%2 == 0 {
+		if dd := dom.Builder().FromMap(deepCopy(start).(map[string]any)); reflect.DeepEqual(nodeToAny(dd), nodeToAny(d)) {
+			d = dd
+		}
+	}
 	var cur any = deepCopy(start)
 	var fail []string
 	var obs, descs, coqs []string
@@ -438,7 +444,7 @@ func c09CopyEdit(r *rand.Rand, start map[string]any, o genOpts) Case {
 func init() {
 	register(&Prop{
 		ID:   "C09",
-		Rule: "sequences of 1-12 JSON Patch operations (add, remove, replace, move, copy, test; value/from occasionally missing) on one generated document; pointers aimed at existing locations, sibling keys, index +-1/len/len+1, non-numeric / negative / non-canonical tokens on lists, scalar parents, moves into own descendants and onto themselves (incl. list items of every kind moved or copied beneath themselves, whose right-hand neighbour would slide into their place), all-digit tokens beyond the machine word, moves under a sibling whose name starts with the source's name; after EVERY step: status and whole document vs an RFC 6902 reference interpreter over plain values (Go) and vs the Coq model of patch.Do and the Coq RFC interpreter; a failing step must leave the document as it was; copy-edit sequences (copy a composite, edit inside the copy, test the source). Non-trivial: a failing step after a succeeding one. Distinct by Gallina term. Every second pointer reaches patch.Do as RFC 6901 text parsed by patch.ParsePath; an eighth of the documents use non-ASCII member names.",
+		Rule: "sequences of 1-12 JSON Patch operations (add, remove, replace, move, copy, test; value/from occasionally missing) on one generated document; pointers aimed at existing locations, sibling keys, index +-1/len/len+1, non-numeric / negative / non-canonical tokens on lists, scalar parents, moves into own descendants and onto themselves (incl. list items of every kind moved or copied beneath themselves, whose right-hand neighbour would slide into their place), all-digit tokens beyond the machine word, moves under a sibling whose name starts with the source's name; after EVERY step: status and whole document vs an RFC 6902 reference interpreter over plain values (Go) and vs the Coq model of patch.Do and the Coq RFC interpreter; a failing step must leave the document as it was; copy-edit sequences (copy a composite, edit inside the copy, test the source). Non-trivial: a failing step after a succeeding one. Distinct by Gallina term. Every second pointer reaches patch.Do as RFC 6901 text parsed by patch.ParsePath; an eighth of the documents use non-ASCII member names. Half of the patched documents are built by the decoder (shared null leaf), some hold lists with several nulls.",
 		Corpus: func() []Case {
 			d := map[string]any{"a": []any{1, 2}, "s": "x", "c": map[string]any{"k": []any{map[string]any{"v": 1}, 2}}}
 			v := func(x any) rop { return rop{Val: x, HasVal: true} }
@@ -453,6 +459,7 @@ func init() {
 				c09Run(nil, d, []rop{mk("move", []string{"nope", "x"}, rop{From: []string{"s"}, HasFrom: true}), mk("move", []string{"c", "k", "0", "v", "z"}, rop{From: []string{"c"}, HasFrom: true})}, nil, 2),
 				c09Run(nil, d, []rop{mk("move", []string{"c", "k", "1", "x"}, rop{From: []string{"c", "k", "0"}, HasFrom: true})}, nil, 1), // shifted sibling
 				c09Run(nil, d, []rop{mk("move", []string{"a", "2"}, rop{From: []string{"a", "0"}, HasFrom: true}), mk("remove", []string{"a", "01"}, rop{})}, nil, 2),
+				c09Run(nil, map[string]any{"slots": []any{"a", nil, "b", nil, "c"}, "o": map[string]any{}}, []rop{mk("remove", []string{"slots", "1"}, rop{}), mk("move", []string{"o", "x"}, rop{From: []string{"slots", "2"}, HasFrom: true})}, nil, 2),
 			}
 		},
 		Gen: func(r *rand.Rand, tier string, idx int) Case {
@@ -463,6 +470,9 @@ func init() {
 			}
 			o.maxDepth = 3
 			start := genDoc(r, o)
+			if r.Intn(5) == 0 { // a list with the same value at several positions
+				start[o.keys[r.Intn(len(o.keys))]] = []any{[]any{"a", nil, "b", nil, "c"}, []any{nil, 1, nil}, []any{nil, nil}, []any{1, 1, map[string]any{"k": nil}, nil}}[r.Intn(4)]
+			}
 			if idx%6 == 5 {
 				return c09CopyEdit(r, start, o)
 			}
